@@ -49,8 +49,6 @@ SPEC = {
         '(under the head short hash the pool answers with the unit itself or nothing; if nothing, also nothing under the other '
         'members short hashes) - what an injective short hash and a mempool that never holds group members individually give',
         'TxCount within memory (<= c_cap, <= 2^45)',
-        'C34_missing_waits_then_requests / C34_single_block_life: broadcast validation enabled (c_noval = false; otherwise '
-        'the pending loop dies when it completes a block, C33 finding 3)',
     ],
     'manifest': {
         'level_text': 'partial: exact rebuild proved up to MainHash/MainHeight (full statement refuted, finding 1) and under '
